@@ -145,9 +145,9 @@ class C08(Prop):
         return h
 
     def gen(self, rng, tier):
-        shape = R.gen_shape(rng, rng.choice([1, 1, 2, 2, 3]), inner=('etod', 'deco', 'tagger', 'tfr', 'multi', 'multi'))
+        shape = R.gen_shape(rng, rng.choice([1, 1, 2, 2, 3]), inner=('etod', 'deco', 'tagger', 'tfr', 'multi', 'multi'), fattr=0.15)
         while R.depth(shape) < 2 and rng.random() < 0.9:
-            shape = R.gen_shape(rng, rng.choice([1, 2, 2, 3]), inner=('etod', 'deco', 'tagger', 'tfr', 'multi', 'multi'))
+            shape = R.gen_shape(rng, rng.choice([1, 2, 2, 3]), inner=('etod', 'deco', 'tagger', 'tfr', 'multi', 'multi'), fattr=0.15)
         if rng.random() < 0.12:
             # a linear stack over a TestByTestResult whose callback raises for some tests
             shape = ['tbt']
@@ -200,7 +200,7 @@ class C08(Prop):
     def features(self, inp, trace):
         shape, hist = inp[:2]
         kinds = R.kinds_in(shape)
-        f = ['depth=%d' % R.depth(shape), 'leaves=%d' % len([k for k in kinds if k.startswith('sink') or k in ('tt', 'tbt', 'text')]),
+        f = ['depth=%d' % R.depth(shape), 'leaves=%d' % len([k for k in kinds if k.startswith(('sink', 'fsink')) or k in ('tt', 'tbt', 'text')]),
              'calls=%s' % (len(hist) if len(hist) < 30 else '30+'), 'tests=%d' % len([c for c in hist if c[0] == 'startTest'])]
         f += ['node:' + k for k in sorted(set(kinds))]
         for c in hist:
